@@ -511,9 +511,18 @@ def c06_sequence_gen(r, tier):
 def c06_gen(r, tier):
     n = 250 if tier == "quick" else 4000
     yield {"schema": {"rules": []}, "doc": enc({"a": 1})}
+    # a schema is a list of rules: equal rules count separately (given twice, or equal up to ==, e.g. 1 and True)
+    fan = {"path": {"parts": [{"$prim": "a"}, {"$p": "list"}]}, "cond": G.leaf("Value", "greater_than", 1)}
+    one = {"path": {"parts": [{"$prim": "b"}]}, "cond": G.leaf("Value", "equal_to", 1)}
+    tru = {"path": {"parts": [{"$prim": "b"}]}, "cond": G.leaf("Value", "equal_to", True)}
+    for rules in ([fan, fan], [one, tru], [fan, one, fan, tru]):
+        for perm in ([0, 1] if len(rules) == 2 else [0, 1, 2, 3], [1, 0] if len(rules) == 2 else [3, 1, 2, 0]):
+            yield {"schema": {"rules": copy.deepcopy(rules)}, "doc": enc({"a": [1, 2, 0], "b": "x"}), "perm": perm}
     for _ in range(n):
         d = G.gen_doc(r, 3)
         s = G.gen_schema(r, d)
+        if s["rules"] and r.random() < 0.15:
+            s["rules"].append(copy.deepcopy(r.choice(s["rules"])))
         perm = list(range(len(s["rules"])))
         r.shuffle(perm)
         yield {"schema": s, "doc": enc(d), "perm": perm}
